@@ -198,6 +198,14 @@ theorem noOrphan_step (hfix : ∀ n, n ≥ 2 → dropSinkRemovesEntry n = false)
           rcases hx with hx | rfl
           · exact h x hx
           · rfl
+  | cancelCall k =>
+    simp only [step, doCancelCall]
+    split
+    · exact h
+    · rename_i hl
+      split
+      · exact h
+      · exact noOrphan_put h _ _ _ (by simpa using lk hl)
   | accept k =>
     simp only [step, doAccept]
     split
@@ -209,15 +217,17 @@ theorem noOrphan_step (hfix : ∀ n, n ≥ 2 → dropSinkRemovesEntry n = false)
         · exact noOrphan_put h _ _ _ (by simpa using lk hl)
         · split
           · exact h
-          · rename_i s cn _ _ _
-            have hm : NoOrphan { st with subs := st.subs.map (displace s.conn s.meth s.subId) } := by
-              intro x hx
-              simp only [List.mem_map] at hx
-              obtain ⟨t, ht, rfl⟩ := hx
-              have := h t ht
-              unfold displace
-              split <;> simpa using this
-            exact noOrphan_put hm _ _ _ (by simpa using lk hl)
+          · split
+            · exact noOrphan_put h _ _ _ (by simpa using lk hl)
+            · rename_i s cn _ _ _ _
+              have hm : NoOrphan { st with subs := st.subs.map (displace s.conn s.meth s.subId) } := by
+                intro x hx
+                simp only [List.mem_map] at hx
+                obtain ⟨t, ht, rfl⟩ := hx
+                have := h t ht
+                unfold displace
+                split <;> simpa using this
+              exact noOrphan_put hm _ _ _ (by simpa using lk hl)
   | reject k code =>
     simp only [step, doRefuse]
     split
@@ -536,6 +546,44 @@ theorem c06_unsub_malformed (st : State) (c rid : Nat) :
       · simp
       · simp [putConn]
 
+/-! ### C06.1/C06.3 — an accept that fails leaves nothing behind -/
+
+/-- **A failed accept leaves nothing behind.**  Whenever `accept` answers `err` — the connection's
+queue is closed, or the subscribe call had been cancelled so that nobody takes the response — the
+whole effect on the state is: record `k` goes from `pending` to `acceptFailed` (its table flag, sink
+count and every other record untouched: no entry appears anywhere), its connection gets the permit
+back, and at most the orphan response frame is queued.  Consequently (`c06_unsub_truth`) an
+unsubscribe naming its id answers false, and (`c06_cap`) the slot count is as before the subscribe. -/
+theorem c06_failed_accept_leaves_nothing (st : State) (k : Nat) (herr : (step st (.accept k)).2 = .err) :
+    ∃ s cn, lookup st k = some (s, cn) ∧ s.phase = .pending ∧
+      ((step st (.accept k)).1 = put st k { s with phase := .acceptFailed, taskDone := true } cn.release ∨
+       (step st (.accept k)).1 = put st k { s with phase := .acceptFailed, taskDone := true }
+          (cn.push (.respDead s.reqId s.subId)).release) := by
+  simp only [step, doAccept] at herr ⊢
+  cases hl : lookup st k with
+  | none => simp [hl] at herr
+  | some sc =>
+    obtain ⟨s, cn⟩ := sc
+    simp only [hl] at herr ⊢
+    refine ⟨s, cn, rfl, ?_⟩
+    by_cases hph : s.phase = .pending
+    · have h1 : (s.phase != Phase.pending) = false := by simp [hph]
+      simp only [h1] at herr ⊢
+      refine ⟨hph, ?_⟩
+      cases ho : cn.isOpen with
+      | false => simp
+      | true =>
+        simp only [ho] at herr ⊢
+        cases hr : cn.hasRoom with
+        | false => simp [hr] at herr
+        | true =>
+          simp only [hr] at herr ⊢
+          cases hd : s.callDead with
+          | true => simp
+          | false => simp [hd] at herr
+    · have h1 : (s.phase != Phase.pending) = true := by simpa using hph
+      simp [h1] at herr
+
 /-! ### C06.1 — id re-use: a late release never touches a newer subscription under the same id -/
 
 /-- Dropping a sink handle of subscription record `k` changes no other record: whatever is
@@ -653,6 +701,17 @@ example : outs (init [(2, 8)])
     [.subscribe 0 0 1 (idKey (.num 7)), .accept 0, .unsubscribe 0 0 (idKey (.str (lit "7"))) 2,
      .unsubscribe 0 0 (idKey (.str (lit "007"))) 3, .unsubscribe 0 0 (idKey (.num 7)) 4]
     = [.pending (idKey (.num 7)), .ok, .bool false, .bool false, .bool true] := by decide
+
+-- seeded change C06-R8: the subscribe call is cancelled, then the (raw) handler accepts: accept
+-- fails, the orphan response is on the wire, no entry, unsubscribe answers false, the slot is back
+example : outs (init [(1, 8)])
+    [.subscribe 0 2 1 5, .cancelCall 0, .accept 0, .unsubscribe 0 2 5 2, .subscribe 0 2 3 6, .writerStep 0]
+    = [.pending 5, .done, .err, .bool false, .pending 6, .frame (.respDead 1 5)] := by decide
+-- a cancelled call whose sink is dropped without decision answers nothing; reject still writes its error
+example : outs (init [(2, 8)])
+    [.subscribe 0 2 1 5, .cancelCall 0, .dropPending 0, .writerStep 0, .subscribe 0 2 2 6, .cancelCall 1,
+     .reject 1 (-7), .writerStep 0]
+    = [.pending 5, .done, .done, .empty, .pending 6, .done, .done, .frame (.err 2 (-7))] := by decide
 
 -- the truth table on a concrete history
 def okState : State := run (init [(1, 8), (1, 8)]) [.subscribe 0 0 7 1, .accept 0, .send 0 5]
